@@ -35,6 +35,12 @@ fn gen_cases(rng: &mut Rng, tier: Tier) -> Vec<Value> {
                 }
                 case["near_ties"] = json!(true);
             }
+            // every fourth work list is evaluated under the HEURISTIC goal (known_edge objective ranked second) on a solution
+            // that carries a footprint: the edges of the current tours were seen `fp` times in earlier solutions
+            if i % 4 == 1 {
+                case["heuristic_goal"] = json!(true);
+                case["fp"] = json!(rng.range(4, 40));
+            }
             case
         })
         .collect()
@@ -56,7 +62,15 @@ fn cost_json(res: &InsertionResult) -> Value {
 }
 
 fn exec(case: &Value) -> Value {
-    let mc = build_multi_case(case, quiet_env());
+    let mut mc = build_multi_case(case, quiet_env());
+    if let Some(times) = case["fp"].as_u64() {
+        use vrp_core::models::common::{Footprint, Shadow};
+        use vrp_core::rosomaxa::population::RosomaxaSolution;
+        let mut footprint = Footprint::new(&mc.problem);
+        let shadow = Shadow::from(&mc.ctx);
+        (0..times).for_each(|_| footprint.add(&shadow));
+        mc.ctx.on_update(&footprint);
+    }
     let jobs: Vec<&Job> = mc.cands.iter().collect();
     let routes: Vec<&RouteContext> = mc.ctx.solution.routes.iter().chain(mc.ctx.solution.registry.next_route()).collect();
     let leg_selection = LegSelection::Exhaustive;
